@@ -895,6 +895,276 @@ fn mode_volumes(a: &Args) {
     println!("{}", json!({"cases": case, "lines": t.lines, "paths": counters}));
 }
 
+// ------------------------------------------------------------------------------------------------ clone mode
+
+/// harness-owned stream with a known length (HasLength is adlt's trait; Cursor is foreign: orphan rule)
+struct LenCursor(Cursor<Vec<u8>>);
+impl Read for LenCursor {
+    fn read(&mut self, buf: &mut [u8]) -> std::io::Result<usize> {
+        self.0.read(buf)
+    }
+}
+impl Seek for LenCursor {
+    fn seek(&mut self, pos: SeekFrom) -> std::io::Result<u64> {
+        self.0.seek(pos)
+    }
+}
+impl adlt::utils::cloneable_seekable_reader::HasLength for LenCursor {
+    fn len(&self) -> u64 {
+        self.0.get_ref().len() as u64
+    }
+}
+
+#[derive(Clone, Debug)]
+struct COp {
+    c: usize, // clone, 1-based
+    op: Op,
+    clone_from: usize, // > 0: clone c is dropped and made anew from this clone
+}
+
+/// run operations on `nc` clones of the wrapper `w0`; one reference position per clone (follows the observed results)
+fn run_clone_ops<W: Read + Seek + Clone>(w0: W, concat: &[u8], nc: usize, small: bool, next: &mut dyn FnMut(&[u64]) -> Option<COp>) -> Vec<Value> {
+    let mut clones: Vec<W> = (0..nc).map(|_| w0.clone()).collect();
+    drop(w0);
+    let mut rpos: Vec<u64> = vec![0; nc];
+    let mut evs = Vec::new();
+    while let Some(o) = next(&rpos) {
+        let ci = o.c - 1;
+        if o.clone_from > 0 {
+            let src = clones[o.clone_from - 1].clone();
+            clones[ci] = src;
+            rpos[ci] = rpos[o.clone_from - 1];
+            evs.push(json!({"ev":"clone","c":o.c,"a":o.clone_from}));
+            continue;
+        }
+        match &o.op {
+            Op::Read(n) => {
+                let mut buf = vec![0u8; *n];
+                let pos = rpos[ci] as usize;
+                match clones[ci].read(&mut buf) {
+                    Ok(k) => {
+                        let got = &buf[..k.min(buf.len())];
+                        let lo = pos.min(concat.len());
+                        let hi = (pos + k).min(concat.len());
+                        let want = &concat[lo..hi];
+                        evs.push(json!({"ev":"read","c":o.c,"n":n,"k":k,"eq":got == want,"hash":hash31(got),"ref_hash":hash31(want),
+                            "data": if small { got.to_vec() } else { vec![] }}));
+                        rpos[ci] = (pos + k) as u64;
+                    }
+                    Err(e) => evs.push(json!({"ev":"ioerr","c":o.c,"op":"read","msg":e.to_string()})),
+                }
+            }
+            Op::Start(_) | Op::Cur(_) | Op::End(_) => {
+                let (from, a, sf) = match &o.op {
+                    Op::Start(p) => ("start", *p as i64, SeekFrom::Start(*p)),
+                    Op::Cur(d) => ("cur", *d, SeekFrom::Current(*d)),
+                    Op::End(d) => ("end", *d, SeekFrom::End(*d)),
+                    _ => unreachable!(),
+                };
+                // the reference cursor of this clone performs the same seek (targets are inside [0, len] by construction)
+                let mut reference = Cursor::new(concat);
+                reference.set_position(rpos[ci]);
+                let _ = reference.seek(sf);
+                rpos[ci] = reference.position();
+                match clones[ci].seek(sf) {
+                    Ok(r) => evs.push(json!({"ev":"seek","c":o.c,"from":from,"a":a,"ok":true,"r":r})),
+                    Err(e) => evs.push(json!({"ev":"seek","c":o.c,"from":from,"a":a,"ok":false,"r":-1,"msg":e.to_string()})),
+                }
+            }
+            Op::Rte => {
+                let pos = (rpos[ci] as usize).min(concat.len());
+                let mut v = Vec::new();
+                match clones[ci].read_to_end(&mut v) {
+                    Ok(k) => {
+                        let hi = (pos + k).min(concat.len());
+                        let want = &concat[pos..hi];
+                        evs.push(json!({"ev":"rte","c":o.c,"k":k,"eq": v == want,"hash":hash31(&v),"ref_hash":hash31(want)}));
+                        rpos[ci] = (pos + k) as u64;
+                    }
+                    Err(e) => evs.push(json!({"ev":"ioerr","c":o.c,"op":"rte","msg":e.to_string()})),
+                }
+            }
+        }
+    }
+    evs
+}
+
+fn clone_case(below: &str, vols: &[Vec<u8>], concat: &[u8], nc: usize, next: &mut dyn FnMut(&[u64]) -> Option<COp>) -> Result<Vec<Value>, String> {
+    use adlt::utils::cloneable_seekable_reader::verif_new_cloneable_seekable_reader as wrap;
+    let small = concat.len() <= 64;
+    catch(std::panic::AssertUnwindSafe(|| {
+        if below == "cursor" {
+            run_clone_ops(wrap(LenCursor(Cursor::new(concat.to_vec()))), concat, nc, small, next)
+        } else {
+            let chain = SeekableChain::new(vols.iter().map(|v| Cursor::new(v.clone())).collect::<Vec<_>>());
+            run_clone_ops(wrap(chain), concat, nc, small, next)
+        }
+    }))
+}
+
+fn clone_hdr(concat: &[u8], nc: usize, below: &str, sizes: &[usize], src: &str) -> Value {
+    json!({"total":concat.len(),"nc":nc,"concat": if concat.len() <= 64 { concat.to_vec() } else { vec![] },"below":below,"sizes":sizes,"src":src})
+}
+
+/// the cloneable reader of unzip.rs over a cursor / over a multi-volume chain: TLC paths (prediction fast path) + seeded random
+fn mode_clone(a: &Args) {
+    let mut t = Trace::create(&a.str("--out", "trace.ndjson"));
+    let mut rng = Rng::new(a.num("--seed", 1));
+    let sample = a.num("--sample", 200);
+    let mut case = 0u64;
+    let (mut replayed, mut fast, mut slow, mut drift) = (0u64, 0u64, 0u64, 0u64);
+    let paths: std::rc::Rc<std::cell::RefCell<BTreeMap<String, u64>>> = Default::default();
+    let bump = |k: &str| *paths.borrow_mut().entry(k.to_string()).or_insert(0) += 1;
+    let mut drift_samples = Vec::new();
+    if let Some(f) = a.get("--scenarios") {
+        let scns = read_ndjson(f);
+        let every = (scns.len() as u64 / sample.max(1)).max(1);
+        for (si, scn) in scns.iter().enumerate() {
+            let total = scn["total"].as_u64().unwrap() as usize;
+            let nc = scn["nc"].as_u64().unwrap() as usize;
+            let mut ops: Vec<COp> = Vec::new();
+            let mut pred: Vec<i64> = Vec::new();
+            for o in scn["ops"].as_array().unwrap() {
+                let av = o["a"].as_i64().unwrap();
+                let c = o["c"].as_u64().unwrap() as usize;
+                let (op, cf) = match o["op"].as_str().unwrap() {
+                    "read" => (Op::Read(av as usize), 0),
+                    "start" => (Op::Start(av as u64), 0),
+                    "cur" => (Op::Cur(av), 0),
+                    "end" => (Op::End(av), 0),
+                    "clone" => (Op::Rte, av as usize),
+                    x => panic!("op {}", x),
+                };
+                ops.push(COp { c, op, clone_from: cf });
+                pred.push(o["r"].as_i64().unwrap());
+            }
+            let concat = rng.bytes(total);
+            // every path runs over a plain cursor (the model's underlying stream: prediction fast path); every 8th one also over a
+            // multi-volume chain (short reads at volume boundaries are legal, so these runs are always validated by TLC instead)
+            for below in ["cursor", "chain"] {
+                if below == "chain" && si % 8 != 0 {
+                    continue;
+                }
+                let sizes = if below == "chain" { random_split(&mut rng, total, true) } else { vec![total] };
+                let mut vols = Vec::new();
+                let mut off = 0;
+                for s in &sizes {
+                    vols.push(concat[off..off + s].to_vec());
+                    off += s;
+                }
+                // replay; stop issuing the path once an observed position differs from the predicted one (see from_list)
+                let mut i = 0usize;
+                let mut exp: Vec<i64> = vec![0; nc];
+                let ops2 = ops.clone();
+                let pred2 = pred.clone();
+                let mut next = |rp: &[u64]| -> Option<COp> {
+                    if i >= ops2.len() || (0..nc).any(|c| rp[c] as i64 != exp[c]) {
+                        return None;
+                    }
+                    let o = ops2[i].clone();
+                    if o.clone_from > 0 {
+                        exp[o.c - 1] = exp[o.clone_from - 1];
+                    } else {
+                        exp[o.c - 1] = match o.op {
+                            Op::Read(_) => exp[o.c - 1] + pred2[i],
+                            _ => pred2[i],
+                        };
+                    }
+                    i += 1;
+                    Some(o)
+                };
+                let res = clone_case(below, &vols, &concat, nc, &mut next);
+                replayed += 1;
+                bump(&format!("tlc_path_over_{}", below));
+                let same = match &res {
+                    Ok(evs) => {
+                        evs.len() == pred.len()
+                            && evs.iter().zip(pred.iter()).all(|(e, p)| match e["ev"].as_str().unwrap() {
+                                "read" => e["k"].as_i64() == Some(*p) && e["eq"].as_bool() == Some(true),
+                                "seek" => e["ok"].as_bool() == Some(true) && e["r"].as_i64() == Some(*p),
+                                "clone" => true,
+                                _ => false,
+                            })
+                    }
+                    Err(_) => false,
+                };
+                if !same && below == "cursor" {
+                    drift += 1;
+                    if drift_samples.len() < 3 {
+                        drift_samples.push(json!({"scenario": scn, "observed": res.clone().unwrap_or_default()}));
+                    }
+                }
+                if same && below == "cursor" && (si as u64 % every != 0) {
+                    fast += 1;
+                    continue;
+                }
+                slow += 1;
+                emit_case(&mut t, case, clone_hdr(&concat, nc, below, &sizes, "tlc"), res);
+                case += 1;
+            }
+        }
+    }
+    // seeded random: 1..3 clones, interleaved operations, re-cloning, over a cursor or a multi-volume chain (incl. empty volumes)
+    let n_random = a.num("--random", 0);
+    let max_ops = a.num("--max-ops", 120);
+    for _ in 0..n_random {
+        let total = match rng.below(4) { 0 => rng.range(0, 6), 1 => rng.range(0, 64), _ => rng.range(0, a.num("--max-total", 300)) } as usize;
+        let nc = rng.range(1, 3) as usize;
+        let below = if rng.chance(1, 2) { "cursor" } else { "chain" };
+        let sizes = if below == "chain" { random_split(&mut rng, total, true) } else { vec![total] };
+        let (vols, concat) = volumes(&mut rng, &sizes);
+        let nops = rng.range(1, max_ops);
+        let mut r2 = Rng::new(rng.next_u64());
+        let mut done = 0u64;
+        let p2 = paths.clone();
+        let total_i = total as i64;
+        let mut next = |rp: &[u64]| -> Option<COp> {
+            if done >= nops {
+                return None;
+            }
+            done += 1;
+            let mut b = |k: &str| *p2.borrow_mut().entry(k.to_string()).or_insert(0) += 1;
+            let c = r2.range(1, nc as u64) as usize;
+            let pos = rp[c - 1] as i64;
+            let x = r2.below(100);
+            if x < 8 && nc > 1 {
+                let mut src = r2.range(1, nc as u64) as usize;
+                if src == c { src = src % nc + 1; }
+                b("rnd_reclone");
+                return Some(COp { c, op: Op::Rte, clone_from: src });
+            }
+            let op = if x < 50 {
+                b("rnd_read");
+                Op::Read(match r2.below(4) { 0 => 0, 1 => 1, 2 => r2.range(0, 8) as usize, _ => r2.range(0, total as u64 + 5) as usize })
+            } else if x < 65 {
+                b("rnd_seek_start");
+                // re-visiting the positions other clones (and earlier reads) left behind is what exposes a stale belief
+                if r2.chance(1, 2) { Op::Start(rp[r2.below(nc as u64) as usize].min(total as u64)) } else { Op::Start(r2.range(0, total as u64)) }
+            } else if x < 80 {
+                let lo = -pos.min(4);
+                let hi = (total_i - pos).min(4).max(0);
+                b("rnd_seek_cur");
+                Op::Cur(lo + r2.below((hi - lo + 1) as u64) as i64)
+            } else if x < 92 {
+                b("rnd_seek_end");
+                Op::End(-(r2.range(0, (total as u64).min(5)) as i64))
+            } else {
+                b("rnd_read_to_end");
+                Op::Rte
+            };
+            Some(COp { c, op, clone_from: 0 })
+        };
+        bump(&format!("rnd_over_{}", below));
+        if nc > 1 { bump("rnd_several_clones"); }
+        let res = clone_case(below, &vols, &concat, nc, &mut next);
+        emit_case(&mut t, case, clone_hdr(&concat, nc, below, &sizes, "random"), res);
+        case += 1;
+    }
+    t.flush();
+    println!("{}", json!({"cases": case, "lines": t.lines, "replayed": replayed, "fast_path": fast, "slow_path": slow, "drift": drift,
+        "paths": *paths.borrow(), "drift_samples": drift_samples}));
+}
+
 fn main() {
     quiet_panics();
     let a = Args::from_env();
@@ -902,6 +1172,7 @@ fn main() {
         "seek" => mode_seek(&a),
         "extract" => mode_extract(&a),
         "volumes" => mode_volumes(&a),
+        "clone" => mode_clone(&a),
         m => panic!("unknown mode {}", m),
     }
 }
